@@ -15,7 +15,7 @@ def gen(rng, tier):
 
 
 globals().update(acct_prop.make(
-    'C09', components=['frozen.', 'reserve.amount', 'trade.'], clauses=['C09.'], gen=gen, coq=['Proofs/ReserveFacts.v', 'Gen/Reserve.v'], gen_mods=['Costs', 'Reserve'],
+    'C09', components=['frozen.', 'reserve.amount', 'trade.'], clauses=['C09.'], gen=gen, coq=['Proofs/ReserveFacts.v', 'Gen/Reserve.v', 'Model/Broker.v', 'Proofs/BrokerFacts.v', 'Gen/BrokerProg.v'], gen_mods=['Costs', 'Reserve', 'BrokerProg'],
     rule=('random scenarios with many concurrent limit and market orders, partial fills under volume caps (daily auction + bar, minute bars), '
           'cancels of resting and of final orders, matcher-side rejects and end-of-day expiry; a case is one recorded order event or trade '
           '(reserve amount, reserve on PENDING_NEW, release on trade / cancel / reject / expiry) replayed through the Coq model; distinct '
